@@ -1190,7 +1190,14 @@ impl DB {
         }
 
         let mut was_memtable_reused = false;
-        if self.options.reuse_log_files() && is_last_wal && num_compactions == 0 {
+        // Appending to a log that ends in an unfinished or damaged record would hide the appended
+        // records from the next reader, so such a log is never reused
+        let wal_ended_cleanly = wal_reader.ended_cleanly();
+        if self.options.reuse_log_files()
+            && is_last_wal
+            && num_compactions == 0
+            && wal_ended_cleanly
+        {
             log::info!("Reusing WAL file: {wal_path:?}.", wal_path = &wal_path);
             drop(wal_reader);
             if let Ok(wal_writer) =
